@@ -133,9 +133,7 @@ def run(scn, ch):
             res.check('C05.finishes', why == 'until',
                       lambda: 'S=%s (after K=%s) accepted at t=%.2f not finished/answered %.2fs later: slot=%r replied=%s stopping=%s'
                       % (ev.label, k, t_s, limit, world.slot(), rq.replied(), [p.pid - PID_BASE for p in world.stopping_processes()]),
-                      where='commands.%s%s' % (ev.command, '/waiting' if waiting else '') +
-                      ('/stream-closed-before-reply' if ev.command == 'quit' and waiting and world.arbiter.ctrl.stream.closed()
-                       and world.slot() is None else ''))
+                      where=_site(world, ev, rq, waiting))
         world.settle(1)
         res.ev('C05.callback_budget', True)
         res.outcome = digest([CLOCK.max_cb_sleep > 0, [(r.command, (r.reply() or {}).get('status')) for r in world.requests],
@@ -146,6 +144,19 @@ def run(scn, ch):
         res.check('C05.callback_budget', False, 'K=%s S=%s: %s at %s' % (scn.k, [e2.label for _, e2 in world.s_records], e, CLOCK.blocked_where),
                   where=world.blocked_site())
         return finish(world, res, aborted=str(e))
+
+
+def _site(world, ev, rq, waiting):
+    site = 'commands.%s%s' % (ev.command, '/waiting' if waiting else '')
+    closed = waiting and world.arbiter.ctrl.stream.closed() and world.slot() is None
+    if closed and ev.command == 'quit':
+        return site + '/stream-closed-before-reply'
+    if closed and not rq.replied():
+        earlier = world.requests[:world.requests.index(rq)] if rq in world.requests else []
+        if any(r.command == 'quit' for r in earlier):
+            # the operation itself finished; its reply was written after the quit had closed the control stream
+            return 'controller.send_response/waiting-request-dispatched-after-completed-quit'
+    return site
 
 
 def _probe_all(world, res, op):
